@@ -176,6 +176,17 @@ def semOK (F : Flags) (d : Dir) (t : TypeInfo) (r : RegV) (s : Sem) : Bool :=
        else false)
     else true
 
+/-- **Where a move must exist** (so that an error is not an acceptable answer):
+integers and booleans load into every general-purpose register at least as
+wide as the component and store from a general-purpose register of exactly the
+component's width; floats move to and from XMM registers. -/
+def mustMove (F : Flags) (d : Dir) (t : TypeInfo) (r : RegV) : Bool :=
+  ((has t.info F.isInteger || has t.info F.isBoolean) && r.kind == kindGP &&
+    (match d with
+     | .load => decide (t.size ≤ r.size)
+     | .store => t.size == r.size)) ||
+  (has t.info F.isFloat && r.kind == kindVector && r.size == 16)
+
 /-- verdict on a selected opcode -/
 def opcodeOK (F : Flags) (d : Dir) (t : TypeInfo) (r : RegV) (opc : Nat) : Bool :=
   match movSem opc r with
